@@ -101,6 +101,35 @@ func genC18(kind string) func(r *core.Rng) any {
 				c.Subset = true
 			}
 		}
+		if kind == "many-glyphs" {
+			// more than 255 distinct glyphs of one font in one document: character codes beyond one byte
+			c.Font = 0
+			c13LoadFonts()
+			var pool []rune
+			if fam := c13Fonts[0]; fam != nil {
+				sf := fam.Face(10, canvas.Black, canvas.FontRegular, canvas.FontNormal).Font.SFNT
+				for _, rg := range [][2]rune{{0x21, 0x7e}, {0xa1, 0x24f}, {0x1e00, 0x1eff}} /* one script: mixed-script text is F-C18-textwidth-script-runs */ {
+					for q := rg[0]; q <= rg[1]; q++ {
+						if q != 0xad && sf.GlyphIndex(q) != 0 {
+							pool = append(pool, q)
+						}
+					}
+				}
+			}
+			for i := len(pool) - 1; i > 0; i-- {
+				j := r.Intn(i + 1)
+				pool[i], pool[j] = pool[j], pool[i]
+			}
+			n := r.IntRange(200, 420)
+			if n > len(pool) {
+				n = len(pool)
+			}
+			c.Text = string(pool[:n])
+			c.Size = core.PickF(r, []float64{4, 6})
+			c.Box = 0
+			c.Codes = nil
+			return c
+		}
 		if kind == "marks" {
 			// combining marks without precomposed forms: the shaper positions them with glyph offsets
 			c.Font = 0
@@ -712,6 +741,7 @@ func init() {
 			{Name: "texts", Quick: 600, Thorough: 20000, Gen: genC18("texts")},
 			{Name: "justified", Quick: 300, Thorough: 8000, Gen: genC18("justified")},
 			{Name: "vertical", Quick: 200, Thorough: 4000, Gen: genC18("vertical"), Note: "the same font used for horizontal text and for rotated text of a vertical writing mode in one document"},
+			{Name: "many-glyphs", Quick: 60, Thorough: 800, Gen: genC18("many-glyphs"), Note: "200-420 distinct glyphs of one font in one document (character codes beyond 0x00FF)"},
 			{Name: "astral", Quick: 200, Thorough: 3000, Gen: genC18("astral"), Note: "characters beyond U+FFFF: ToUnicode entries are surrogate pairs"},
 			{Name: "marks", Quick: 200, Thorough: 3000, Gen: genC18("marks"), Note: "combining marks positioned by glyph offsets (GPOS mark-to-base)"},
 			{Name: "upright", Quick: 100, Thorough: 1000, Gen: genC18("upright"), WitnessOnly: true, Note: "upright glyphs in a vertical writing mode: the glyphs advance vertically in the layout, but the font is embedded with encoding Identity-H and without vertical metrics (W2/DW2), so a reader advances them horizontally"},
